@@ -97,7 +97,53 @@ fn parse_both(rep: &mut Report, bytes: &[u8], what: &str) -> Option<Result<Parse
 
 /// A coordinate literal together with the f32 it denotes (known a priori).
 fn coord(rng: &mut Rng) -> (String, f32) {
-    match rng.below(6) {
+    match rng.below(8) {
+        6 => {
+            // Long decimals right next to the midpoint of two adjacent f32
+            // values (what an exporter printing doubles produces): the
+            // correctly rounded f32 is known by construction. Parsing through
+            // f64 first (double rounding) gets the wrong neighbour.
+            let lo = rng.log_f32(1e-3, 1e4);
+            let hi = f32::from_bits(lo.to_bits() + 1);
+            let m = (lo as f64 + hi as f64) / 2.0; // exact
+            if rng.chance(1, 2) {
+                // strictly between the midpoint and its f64 neighbours: the
+                // exact (finite) expansion of m with one more digit appended,
+                // or with its final 5 replaced by 4999. An f64 cannot tell
+                // these from m itself.
+                let exact = format!("{m:.70}");
+                let exact = exact.trim_end_matches('0');
+                let neg = rng.bool();
+                let (body, exp) = if rng.bool() || !exact.ends_with('5') {
+                    (format!("{exact}{}", rng.pick(b"139") as char), hi)
+                } else {
+                    (format!("{}4999", &exact[..exact.len() - 1]), lo)
+                };
+                return (if neg { format!("-{body}") } else { body }, if neg { -exp } else { exp });
+            }
+            let side = rng.below(3);
+            let (x, exp) = match side {
+                0 => (f64::from_bits(m.to_bits() + 1), hi),
+                1 => (f64::from_bits(m.to_bits() - 1), lo),
+                // the tie itself goes to the even mantissa
+                _ => (m, if lo.to_bits() & 1 == 0 { lo } else { hi }),
+            };
+            let neg = rng.bool();
+            // The shortest string that reads back as x lies within half an
+            // f64 ulp of x, hence on the same side of m as x = m ± 1 ulp; for
+            // the tie itself only the exact expansion denotes the tie.
+            let body = match if side == 2 { 0 } else { rng.below(3) } {
+                0 => format!("{x:.70}"), // exact expansion, zero padded
+                1 => format!("{x:e}"),
+                _ => format!("{x}"),
+            };
+            (if neg { format!("-{body}") } else { body }, if neg { -exp } else { exp })
+        }
+        7 => {
+            // the exact decimal expansion of an f32, all digits written out
+            let v = rng.log_f32(1e-4, 1e5) * if rng.bool() { -1.0 } else { 1.0 };
+            (format!("{:.40}", v as f64), v)
+        }
         0 => {
             // dyadic rational: exact decimal expansion, value known exactly
             let k = rng.int(-4096, 4096);
